@@ -224,7 +224,7 @@ def configs(ctx):
                                                  deviations=ctx.pick(0, 1), fine=0), ctx.pick(5, 8)))
     alias = (("E1", "S3"), ("E1", "S4"), ("E1", "S1"), ("E1", "S5"))
     out.append(("ttl3-refresh2-aliased-server-addresses", dict(sid=sid, advs=(None, "next"), ttl=3, refresh=2, pairs=alias,
-                                                               deviations=0, fine=0), ctx.pick(5, 8)))
+                                                               deviations=1, fine=0), ctx.pick(5, 8)))
     out.append(("ttl-forever-no-refresh", dict(sid=sid, advs=(None, "half"), ttl=INF, refresh=None, pairs=all_pairs[1:3],
                                                deviations=ctx.pick(1, 2), fine=0), CLOSURE))
     return out
